@@ -735,6 +735,38 @@ package part
 //@   atcall (*Txn).Insert@1 requires @a-singleton-map-starts-the-transaction-with-its-pair m.singleton != nil && $2.Key == m.singleton.Key && $2.Value == m.singleton.Value
 //@   mustcall (*Txn).Insert@1 when @a-singleton-map-starts-the-transaction-with-its-pair m.singleton != nil
 //@   mustcall (*Tree).Txn@1 when @always true
+// FromMap (C17, D4): the existing single element goes into the transaction BEFORE any entry of the
+// hash map (so the hash map's value wins for an equal key): every insert either is that element's
+// or happens once it has been moved. Getters: the singleton answers first, the tree otherwise, with
+// the caller's key; Len is 1 / 0 / the tree's size.
+//@ func FromMap
+//@   property C17
+//@   flag nosafety
+//@   maypanic
+//@   flag dyncall.bytesFromKeyFunc=pure
+//@   flag assumepre=tree-representation-invariant
+//@   requires m.singleton == nil || !m.hasTree
+//@   atcall (*Txn).Insert@* requires @existing-element-first-then-the-hash-map m.singleton == nil || ($2.Key == m.singleton.Key && $2.Value == m.singleton.Value)
+//@   ensureslocal @nothing-to-add-leaves-the-map-as-it-is len(hm) == 0 ==> result.hasTree == m.hasTree && result.singleton == m.singleton
+//@ func Map.Len
+//@   property C17
+//@   pure
+//@   flag nosafety
+//@   ensures @one-for-a-singleton-else-the-tree-size result == (m.singleton != nil ? 1 : (m.hasTree ? m.tree.size : 0))
+//@ func Set.Len
+//@   property C17
+//@   pure
+//@   flag nosafety
+//@   ensures @tree-size-or-zero result == (s.hasTree ? s.tree.size : 0)
+//@ func Set.Has
+//@   property C17
+//@   flag nosafety
+//@   maypanic
+//@   flag dyncall.toBytes=pure
+//@   flag assumepre=tree-representation-invariant
+//@   mustcall (*Tree).Get@1 when @a-tree-backed-set-asks-its-own-tree s.hasTree
+//@   atcall (*Tree).Get@1 requires @its-own-tree $0 == addr(s.tree)
+//@   ensureslocal @nothing-in-a-set-without-a-tree !s.hasTree ==> !result
 // Set operations (C17): every write goes through a transaction opened on the receiver's OWN tree
 // (the argument's tree is only read through an iterator), and the result is what that
 // transaction committed.
